@@ -173,5 +173,20 @@ func URIHdrsEq(
 	if err2 != ErrHdrOk && err2 != ErrHdrEOH {
 		return false, err2
 	}
+	// more headers than the temporary lists hold: comparing only the
+	// ones that fit would depend on the header order => parse again
+	// into lists that are big enough (rare, allocates)
+	if hlst1.More() {
+		n := hlst1.N
+		hlst1 = URIHdrsLst{}
+		hlst1.Init(make([]URIHdr, n))
+		ParseAllURIHdrs(buf1, offs1, &hlst1, flags)
+	}
+	if hlst2.More() {
+		n := hlst2.N
+		hlst2 = URIHdrsLst{}
+		hlst2.Init(make([]URIHdr, n))
+		ParseAllURIHdrs(buf2, offs2, &hlst2, flags)
+	}
 	return URIHdrsLstEq(&hlst1, buf1, &hlst2, buf2), ErrHdrOk
 }
